@@ -291,6 +291,171 @@ def make_history(shape):
     return build, on_path
 
 
+class FileBytes(SVec):
+    """What fs::read returns in the data obligation: the bytes of the file at `path` (never looked into)."""
+    __slots__ = ("path",)
+
+    def __init__(self, path):
+        SVec.__init__(self, [])
+        self.path = path
+
+
+def make_data_pair(shape):
+    """`Data::new` from its own MIR for two configurations that name the same data directory and differ in everything an update may change
+    (layout, every option): RitiContext::update_engine keeps the Data made by the constructor, so what a new context would load must be the
+    same. The files are oracles keyed by their path (the same path reads the same bytes, the same bytes parse to the same table)."""
+    la, lb = shape["layouts"]
+
+    def build(st, it):
+        prog = it.p
+        cfgs, optss = [], []
+        for i, l in enumerate((la, lb)):
+            vals = {"layout": SString([ord(c) for c in LAYOUTS[l]]), "database_dir": Opaque("PathBuf", ("dbdir",) if shape["dir"] else ()),
+                    "user_dir": Opaque("PathBuf", ("userdir",))}
+            opts = {}
+            for o in OPTS:
+                opts[o] = st.sym_bool("d%d_%s" % (i, o))
+                vals[o] = opts[o]
+            cfgs.append(struct_of(prog, "Config", vals))
+            optss.append(opts)
+        order = prog.structs["Config"]
+        reads = []
+        by_list = {}
+
+        def deref(v):
+            return v.get() if isinstance(v, Ref) else v
+
+        def dbdir(it2, args, callee):
+            c = deref(args[0])
+            return Ref([c.fields[order.index("database_dir")]], 0)
+
+        def path_default(it2, args, callee):
+            return Opaque("PathBuf", ())
+
+        def path_eq(it2, args, callee):
+            a, b = deref(args[0]), deref(args[1])
+            return (a.payload or ()) == (b.payload or ())
+
+        def sub(name):
+            def f(it2, args, callee):
+                c = deref(args[0])
+                return Opaque("PathBuf", tuple(c.fields[order.index("database_dir")].payload or ()) + (name,))
+            return f
+
+        def fs_read(it2, args, callee):
+            from mirsym.values import ok
+            p = deref(args[0])
+            v = FileBytes(p.payload)
+            by_list[id(v.items)] = v
+            reads.append(p.payload)
+            return ok(v)
+
+        def from_slice(it2, args, callee):
+            from mirsym.values import ok
+            a = deref(args[0])
+            items = getattr(a, "items", None)
+            src = by_list.get(id(items))
+            if src is None:
+                raise Exception("from_slice on bytes that are not a file's content")
+            return ok(Opaque("parsed", ("json", src.path)))
+
+        def fall(key, it2, args, callee):
+            m = it2.models.lookup(key, callee)
+            if m is None:
+                from mirsym.interp import Unsupported
+                raise Unsupported("no model for callee `%s`" % callee)
+            return m(it2, args, callee)
+
+        def any_default(it2, args, callee):
+            return path_default(it2, args, callee) if "PathBuf" in callee.split(" as ")[0] else fall("Default::default", it2, args, callee)
+
+        def any_eq(it2, args, callee):
+            a, b = deref(args[0]), deref(args[1])
+            if isinstance(a, Opaque) and isinstance(b, Opaque) and a.tag == "PathBuf" and b.tag == "PathBuf":
+                return path_eq(it2, args, callee)
+            return fall("PartialEq::eq", it2, args, callee)
+
+        it.env["overrides"] = {"Config::get_database_dir": dbdir, "Default::default": any_default, "PartialEq::eq": any_eq, "PartialEq::ne": lambda i, a, c: not any_eq(i, a, c),
+                               "Config::get_database_path": sub("dictionary.json"), "Config::get_suffix_data_path": sub("suffix.json"),
+                               "Config::get_autocorrect_data": sub("autocorrect.json"),
+                               "fs::read": fs_read, "from_slice": from_slice,
+                               "Emojicon::new": lambda it2, args, callee: Opaque("Emojicon", ("bundled",)),
+                               "BengaliEmoji::new": lambda it2, args, callee: Opaque("BengaliEmoji", ("bundled",))}
+        st.ctx = dict(cfgs=cfgs, optss=optss, shape=shape, reads=reads)
+
+        def run():
+            fn = prog.find_fn("Data", "new")
+            return [it.call_function(fn, [Ref([c], 0)]) for c in cfgs]
+        return run
+
+    def canon(v):
+        if isinstance(v, Ref):
+            return canon(v.get())
+        if isinstance(v, Opaque):
+            return ("opaque", v.tag, v.payload)
+        if isinstance(v, SMap):
+            return ("map", tuple((k, canon(x)) for k, x in v.entries), v.oracle is not None, v.extra)
+        if isinstance(v, SVec):
+            return ("vec", tuple(canon(x) for x in v.items))
+        if isinstance(v, SString):
+            return ("str", tuple(str(e) for e in v.elems))
+        if isinstance(v, Box):
+            return canon(v.cell[0])
+        if isinstance(v, Agg):
+            return ("agg", v.kind, v.variant, tuple(canon(x) for x in v.fields))
+        return ("scalar", str(v))
+
+    def on_path(st, it, out):
+        c = st.ctx
+        model = st.get_model()
+
+        def inputs(m):
+            return dict(layouts=[LAYOUTS[la], LAYOUTS[lb]], data_directory=bool(shape["dir"]),
+                        options=[{k: bool(model_value(m, v)) for k, v in o.items()} for o in c["optss"]])
+
+        def pred(m):
+            return dict(panic=out[1].message) if out[0] == "panic" else dict(ok=True)
+        if out[0] == "panic":
+            return [dict(kind="violation", clause="no_panic", inputs=inputs(model), predicted=pred(model))]
+        a, b = out[1]
+        fields = it.p.structs["Data"]
+        diff = [fields[i] for i in range(len(fields)) if canon(a.fields[i]) != canon(b.fields[i])] if isinstance(a, Agg) and isinstance(b, Agg) else ["?"]
+        recs = [dict(kind="cover", name="cover:data_%s" % ("loaded" if c["reads"] else "empty"))]
+        if diff:
+            recs.append(dict(kind="violation", clause="data_is_the_same_for_every_layout_and_option", inputs=dict(inputs(model), differing_fields=diff), predicted=pred(model)))
+        return recs
+    return build, on_path
+
+
+def obl_data(check, budget_s=None):
+    """update_engine keeps the context's Data: a new context's Data must not depend on anything an update may change."""
+    import itertools
+    shapes = [dict(layouts=(a, b), dir=d) for a, b in itertools.permutations("PAB", 2) for d in (True, False)]
+    check.bounds["data_layer"] = dict(configurations="pairs of configurations over {avro_phonetic, two fixed layout files} with the same data directory (set / not set), "
+                                      "all 11 options of both independent symbols", files="oracles keyed by path: the same path reads the same bytes, the same bytes parse to the same table")
+    records, errors, summ = msym.run_shapes(check, "data_layer", shapes, make_data_pair, budget_s=budget_s)
+    name = "data_layer"
+    vio = [r for r in records if r["kind"] == "violation" and (getattr(check, "only_clauses", None) is None or r["clause"] in check.only_clauses)]
+    covers = set(r["name"] for r in records if r["kind"] == "cover")
+    if errors:
+        check.obligation(name, "mirsym", "inconclusive", "executor gave up: " + "; ".join(sorted(set(errors))[:3]))
+        return
+    if not {"cover:data_loaded", "cover:data_empty"} <= covers:
+        check.obligation(name, "mirsym", "inconclusive", "vacuity: missing reachability witnesses")
+        return
+    if not vio:
+        check.obligation(name, "mirsym", "held", "%d paths; Data::new gives the same tables for every layout and option setting over one data directory" % summ["paths"])
+        return
+    found = context_native(vio)
+    if found is None:
+        check.obligation(name, "mirsym", "inconclusive", "counterexample not re-found natively: %s (%s)" % (json.dumps(vio[0]["inputs"], ensure_ascii=False)[:300], vio[0]["clause"]))
+        return
+    sc, obs, what = found
+    check.stats["traces_validated"] += 1
+    st = check.finding("data layer: " + vio[0]["clause"], what, dict(scenario=sc, observed=obs, solver_counterexample=vio[0]["inputs"]))
+    check.obligation(name, "mirsym", st, "%d paths; %d counterexample models" % (summ["paths"], len(vio)))
+
+
 def context_native(vs):
     """Native confirmation through the public API: histories of update_engine over the phonetic method and two synthetic fixed layouts with
     option flips and user auto-correct edits in between, every stage compared with a context newly created with that configuration."""
@@ -305,7 +470,9 @@ def context_native(vs):
         if l == "P":
             return {"layout": "avro_phonetic", "database": REPO + "/data", "opts": o}
         return {"layout_json": la if l == "A" else lb, "database": REPO + "/data", "opts": o}
-    typ = [{"op": "key", "key": keys[ch], "sel": 0} for ch in "xyz"]
+    def typ_of(word):
+        return [{"op": "key", "key": keys[ch], "sel": 0} for ch in word]
+    words = ["xyz", "asgulo", "academy"]      # a user auto-correct entry, base + suffix, a bundled auto-correct entry
     edits = ["{\"xyz\":\"ami\"}", "{\"xyz\":\"tumi\"}", "{\"xyz\":\"kotha\"}", "{\"abc\":\"kotha\"}"]
     scs, meta = [], []
     for n in (2, 3, 4):
@@ -317,12 +484,16 @@ def context_native(vs):
                     if i > 0:
                         steps.append({"op": "write_user_file", "name": "autocorrect.json", "content": edits[i % len(edits)], "mtime_plus": 5 * i})
                         steps.append({"op": "update", "ctx": 0, "config": cfg(seq[i], flips[i])})
-                    steps += [dict(x, ctx=0) for x in typ]
-                    a = len(steps) - 1
-                    steps.append({"op": "finish", "ctx": 0})
+                    ma = []
+                    for w in words:
+                        steps += [dict(x, ctx=0) for x in typ_of(w)]
+                        ma.append(len(steps) - 1)
+                        steps.append({"op": "finish", "ctx": 0})
                     steps.append({"op": "new", "ctx": i + 1, "config": cfg(seq[i], flips[i])})
-                    steps += [dict(x, ctx=i + 1) for x in typ]
-                    marks.append((a, len(steps) - 1))
+                    for w, a in zip(words, ma):
+                        steps += [dict(x, ctx=i + 1) for x in typ_of(w)]
+                        marks.append((a, len(steps) - 1, i, w))
+                        steps.append({"op": "finish", "ctx": i + 1})
                     steps.append({"op": "free", "ctx": i + 1})
                 scs.append({"steps": steps})
                 meta.append((seq, flips, marks))
@@ -333,12 +504,12 @@ def context_native(vs):
         p = [x for x in rr if "panic" in x]
         if p:
             return sc, p[0], "update_engine history %s panics: %s" % ("".join(seq), p[0]["panic"])
-        for stage, (a, b) in enumerate(marks):
+        for (a, b, stage, word) in marks:
             x, y = rr[a], rr[b]
             if x.get("suggestion") != y.get("suggestion"):
                 return sc, [x, y], ("history of layouts %s (P phonetic, A/B two fixed layouts; user auto-correct file edited before each update): at stage %d the "
-                                    "updated context answers 'xyz' with %s, a context newly created with the same configuration with %s" % (
-                                        "->".join(seq), stage, json.dumps(x.get("suggestion"), ensure_ascii=False)[:200], json.dumps(y.get("suggestion"), ensure_ascii=False)[:200]))
+                                    "updated context answers '%s' with %s, a context newly created with the same configuration with %s" % (
+                                        "->".join(seq), stage, word, json.dumps(x.get("suggestion"), ensure_ascii=False)[:200], json.dumps(y.get("suggestion"), ensure_ascii=False)[:200]))
     return None
 
 
